@@ -663,7 +663,10 @@ def destroy_before_free(fn, destroy_callee):
     def on_stmt(st, b, i, stmt):
         facts, destroyed, freed = st
         for c in calls(stmt):
-            if c.get("callee") == destroy_callee and c.get("args") and root_var(c["args"][0]) == p0:
+            a0 = strip_casts(c["args"][0]) if c.get("args") else None
+            if a0 is not None and a0["k"] == "ref" and a0.get("decl") == "local":
+                a0 = fn.resolve(a0) or a0            # `native = &obj->hdl; destroy (native);`
+            if c.get("callee") == destroy_callee and a0 is not None and root_var(a0) == p0:
                 if freed:
                     bad.append((line(c), "%s runs after the object was released" % destroy_callee))
                 destroyed = True
